@@ -557,6 +557,8 @@ pub enum Expect {
     Either(Vec<u8>, String),
     /// the library itself panics for these lines and settings: not C12's business, not judged
     LibraryPanics(String),
+    /// stdout refused the bytes (ENOSPC / EIO): whatever else happens, the program must not report success
+    NoSilentSuccess,
     /// outside the property (probe only): logged, never judged
     NotJudged(String),
 }
@@ -568,7 +570,13 @@ pub fn expectation(case: &Case, o: &Observed) -> Expect {
     if case.channel == "clap-error" {
         return Expect::ClapError;
     }
-    // hard write failures on stdout/stderr are outside the property
+    // Hard write failures on stdout/stderr are outside the property as far as the *form* of the reaction goes (the
+    // pinned tree panics there). One thing follows from the property all the same: exit status 0 belongs to a result
+    // that was printed. A device that refuses the bytes (ENOSPC, EIO) and a program that then reports success has
+    // lost the result silently. (EPIPE is left alone: leaving quietly when the reader has gone is a common convention.)
+    if o.hard_err.iter().any(|(c, e)| c == "w1" && (*e == 28 || *e == 5)) {
+        return Expect::NoSilentSuccess;
+    }
     if o.hard_err.iter().any(|(c, _)| c == "w1" || c == "w2") {
         return Expect::NotJudged("stdout/stderr failed hard".into());
     }
@@ -768,6 +776,13 @@ pub fn judge(case: &Case, o: &Observed) -> Verdict {
         Ok(())
     };
     match &expect {
+        Expect::NoSilentSuccess => {
+            if o.exit_code == Some(0) {
+                v("result_lost_but_exit_zero", format!("stdout refused the bytes ({:?}) and the program exited 0", o.hard_err), &expect)
+            } else {
+                Verdict { class: None, detail: String::new(), expect }
+            }
+        }
         Expect::NotJudged(_) | Expect::LibraryPanics(_) => Verdict {
             class: None,
             detail: String::new(),
